@@ -21,4 +21,4 @@ package sniffing
 //@   loop 1
 //@     invariant 0 <= i && i <= search.Len()
 //@   loop 2
-//@     invariant 0 <= i && i + 6 <= j && indicatorLen >= 0 && iNextField <= search.Len() && iNextField == i + 4 + extLength
+//@     invariant 0 <= i && i + 6 <= j && j <= iNextField + 65535 && iNextField <= search.Len() && iNextField == i + 4 + extLength
